@@ -27,7 +27,8 @@ ASSUMPTIONS = [
 ]
 
 TAGS = ["i", "b", "p"]
-TAGS2 = ["I", "em", "s"]  # upper-case style tag, the third style tag, a tag the balancing does not know
+TAGS2 = ["I", "em", "s"]
+TAGS3 = ['i\nclass="c"', 'p title="1 > 0"']  # a start tag written across a line break; an attribute value containing '>'   # upper-case style tag, the third style tag, a tag the balancing does not know
 CFG = {"quick": [("wxyz", 2)], "thorough": [("wxyz", 3), ("wxyzu", 2)]}
 
 
@@ -107,6 +108,7 @@ def shards(tier, seed):
             out.append({"plain": plain, "max_el": mx, "r": r, "n": n, "both_engines": mx <= 2})
             if mx <= 2:
                 out.append({"plain": plain, "max_el": mx, "r": r, "n": n, "tags": TAGS2})
+                out.append({"plain": plain, "max_el": mx, "r": r, "n": n, "tags": TAGS3})
     return out
 
 
@@ -135,7 +137,7 @@ def run_shard(sh):
         return st
     plain = sh["plain"]
     p = st.part(f"{plain}-{sh['max_el']}el")
-    assert len(set(plain)) == len(plain) and not (set(plain) & set("ibpaIems"))
+    assert len(set(plain)) == len(plain) and not (set(plain) & set("ibpaIemsclt"))
     sets = list(annot.span_sets(len(plain), 2))
     seen = set()
     for tree in itertools.islice(annot.element_trees(len(plain), sh.get("tags") or TAGS, sh["max_el"]), sh["r"], None, sh["n"]):
